@@ -379,6 +379,7 @@ func cmdCheck(args []string) {
 		os.Exit(2)
 	}
 	buildOverlay = ov
+	currentOvPath = ovPath
 	pkgs, err := loadPackages(cfg.Packages, ov)
 	if err != nil {
 		fmt.Fprintln(os.Stderr, err)
@@ -630,10 +631,24 @@ func runMutant(pkgs []*packages.Package, v0 *Verifier, cfg *PropConfig, tier, pa
 		}
 		return true, ob.Name + " (" + ob.Verdict + ")", nil
 	}
+	// not caught by the proof obligations: try the bounded conformance runs on the mutated sources (via overlay)
+	for _, br := range cfg.Bounded {
+		ok, _, _ := runBoundedWith(br, currentOvPath, repl)
+		if !ok {
+			return true, "bounded/" + br.Name + " (bounded run fails on the mutated source)", nil
+		}
+	}
 	return false, "", fmt.Errorf("all %d obligations discharged", len(out.obls))
 }
 
 func runBounded(br BoundedRun, ovPath string) (bool, string, float64) {
+	return runBoundedWith(br, ovPath, nil)
+}
+
+var currentOvPath string
+
+// runBoundedWith runs a bounded conformance test, optionally with source files replaced (mutant self-test).
+func runBoundedWith(br BoundedRun, ovPath string, repl map[string][]byte) (bool, string, float64) {
 	start := time.Now()
 	// inject the test file through a copy of the overlay
 	var ov struct{ Replace map[string]string }
@@ -641,6 +656,17 @@ func runBounded(br BoundedRun, ovPath string) (bool, string, float64) {
 	json.Unmarshal(b, &ov)
 	dst := filepath.Join(repoDir, br.Pkg, "zz_verif_bounded_test.go")
 	ov.Replace[dst] = filepath.Join(verifDir, "bounded", br.File)
+	if len(repl) > 0 {
+		td, _ := os.MkdirTemp("", "gvcmutsrc")
+		defer os.RemoveAll(td)
+		i := 0
+		for path, content := range repl {
+			i++
+			f := filepath.Join(td, fmt.Sprintf("m%d.go", i))
+			os.WriteFile(f, content, 0o644)
+			ov.Replace[path] = f
+		}
+	}
 	nb, _ := json.Marshal(ov)
 	np := ovPath + "." + sanitize(br.Name) + ".json"
 	os.WriteFile(np, nb, 0o644)
